@@ -15,6 +15,8 @@
 -/
 import CppUtil.Props.C01
 import CppUtil.Proofs.WLockMore
+import CppUtil.Proofs.McsProgress
+import CppUtil.Props.McsProto
 
 namespace CppUtil.Props
 open CppUtil CppUtil.WLock
@@ -82,5 +84,56 @@ theorem c02_quiescent_free_opt (r : Nat) (acts : List Act) (s : St)
 example : ∃ s, run (Gen.opt 1) init
     [.spawn, .start 0 (.lock .X), .atom 0 none false, .atom 0 none false, .release 0 7] = some s ∧
     (∀ l ∈ s.agents, l.grant? = none) ∧ s.w = 7 := ⟨_, rfl, by decide, rfl⟩
+
+/-! ### MCSLock: waiting is justified (every reachable state)
+
+  A request of the MCS lock waits on one of four conditions.  In every reachable state, a condition that
+  fails *now* has a witness — an unfinished request ahead of the waiter — and the head of the first group is
+  never held up.  (The waits for a successor's link, `spinNext`, end by the successor's own next two steps,
+  which are never conditional.)  F3, the lost hand-over of the pinned tree, contradicts `c02_mcs_blocked_xSpin`:
+  there the waiter's node word kept a flag nobody owned any more. -/
+
+theorem c02_mcs_blocked_xSpin (nlocks nthreads : Nat) (acts : List Mcs.Act)
+    (hr : Mcs.RunOK mcsPb mcsCb mcsParams (Mcs.mkSt nlocks nthreads) acts) (i : Nat) (a : Mcs.Agent)
+    (hi : (Mcs.run mcsParams (Mcs.mkSt nlocks nthreads) acts).agents[i]? = some a) (m : Mode)
+    (hloc : a.loc = .xSpin m)
+    (hfail : Mcs.spinOk mcsParams m (Mcs.nodeW (Mcs.run mcsParams (Mcs.mkSt nlocks nthreads) acts) a.qnode) = false) :
+    ∃ (j : Nat) (G Pg : Mcs.Grp),
+      (Mcs.ghostRun mcsParams (Mcs.mkSt nlocks nthreads) (fun _ => []) acts a.lk)[j + 1]? = some G ∧ G.head = some i ∧
+      (Mcs.ghostRun mcsParams (Mcs.mkSt nlocks nthreads) (fun _ => []) acts a.lk)[j]? = some Pg ∧
+      ∃ k b, Mcs.TiedTo (Mcs.run mcsParams (Mcs.mkSt nlocks nthreads) acts) a.lk Pg k b :=
+  Mcs.blocked_xSpin McsWordsGen.wordSpecs (mcs_invariant nlocks nthreads acts hr).inv hi m hloc hfail
+
+theorem c02_mcs_front_passes (nlocks nthreads : Nat) (acts : List Mcs.Act)
+    (hr : Mcs.RunOK mcsPb mcsCb mcsParams (Mcs.mkSt nlocks nthreads) acts) (i : Nat) (a : Mcs.Agent)
+    (hi : (Mcs.run mcsParams (Mcs.mkSt nlocks nthreads) acts).agents[i]? = some a) (m : Mode)
+    (hloc : a.loc = .xSpin m) (G : Mcs.Grp)
+    (h0 : (Mcs.ghostRun mcsParams (Mcs.mkSt nlocks nthreads) (fun _ => []) acts a.lk)[0]? = some G)
+    (hh : G.head = some i) :
+    Mcs.spinOk mcsParams m (Mcs.nodeW (Mcs.run mcsParams (Mcs.mkSt nlocks nthreads) acts) a.qnode) = true :=
+  Mcs.front_passes McsWordsGen.wordSpecs (mcs_invariant nlocks nthreads acts hr).inv hi m hloc h0 hh
+
+theorem c02_mcs_blocked_sSpinLock (nlocks nthreads : Nat) (acts : List Mcs.Act)
+    (hr : Mcs.RunOK mcsPb mcsCb mcsParams (Mcs.mkSt nlocks nthreads) acts) (i : Nat) (a : Mcs.Agent)
+    (hi : (Mcs.run mcsParams (Mcs.mkSt nlocks nthreads) acts).agents[i]? = some a) (hloc : a.loc = .sSpinLock)
+    (hsame : (Mcs.lockW (Mcs.run mcsParams (Mcs.mkSt nlocks nthreads) acts) a.lk &&& mcsParams.C.kPtrMask) = a.nxt)
+    (hfail : (Mcs.lockW (Mcs.run mcsParams (Mcs.mkSt nlocks nthreads) acts) a.lk &&& mcsParams.C.kXMask) ≠
+      mcsParams.C.kNoLocks) :
+    ∃ (j : Nat) (G : Mcs.Grp),
+      (Mcs.ghostRun mcsParams (Mcs.mkSt nlocks nthreads) (fun _ => []) acts a.lk)[j]? = some G ∧ G.node = a.qnode ∧
+      (Mcs.hmode (Mcs.run mcsParams (Mcs.mkSt nlocks nthreads) acts) G).isSome ∧
+      ∃ k b, Mcs.TiedTo (Mcs.run mcsParams (Mcs.mkSt nlocks nthreads) acts) a.lk G k b :=
+  Mcs.blocked_sSpinLock McsWordsGen.wordSpecs (mcs_invariant nlocks nthreads acts hr).inv hi hloc hsame hfail
+
+theorem c02_mcs_blocked_drain (nlocks nthreads : Nat) (acts : List Mcs.Act)
+    (hr : Mcs.RunOK mcsPb mcsCb mcsParams (Mcs.mkSt nlocks nthreads) acts) (i : Nat) (a : Mcs.Agent)
+    (hi : (Mcs.run mcsParams (Mcs.mkSt nlocks nthreads) acts).agents[i]? = some a)
+    (hloc : a.loc = .rel .SIX .load0 ∨ a.loc = .upg .load0)
+    (hfail : (Mcs.nodeW (Mcs.run mcsParams (Mcs.mkSt nlocks nthreads) acts) a.qnode &&& mcsParams.C.kSMask) ≠
+      mcsParams.C.kNoLocks) :
+    ∃ G0 : Mcs.Grp, (Mcs.ghostRun mcsParams (Mcs.mkSt nlocks nthreads) (fun _ => []) acts a.lk)[0]? = some G0 ∧
+      Mcs.hmode (Mcs.run mcsParams (Mcs.mkSt nlocks nthreads) acts) G0 = none ∧
+      ∃ k b, Mcs.TiedTo (Mcs.run mcsParams (Mcs.mkSt nlocks nthreads) acts) a.lk G0 k b :=
+  Mcs.blocked_drain McsWordsGen.wordSpecs (mcs_invariant nlocks nthreads acts hr).inv hi hloc hfail
 
 end CppUtil.Props
